@@ -20,6 +20,8 @@
                                                 -> "vsolve <nok> { <n> {re im}*n <nsys> <passes>*nsys }*nok <end: ok|insufficient|singular|vsingular|noconv>"
      vplain P                                   -> "vplain ok <n> {re im}*n" | "vplain err"
      vexact P <nsys> { <n> {re im}*n }*nsys     -> "vexact <all wf 0|1> <all exact 0|1>"
+     vterms <0 T8|1 U8> <rows> <cols> <eq_row> <eq_col> <cells> {conn 0|1}*cells {szero 0|1}*cells
+                                                -> "vterms <n> { <neg> <m_cell|-1> <s_cell|-1> <v_cell> <xindex|-1> }*n"   build_terms_t8 / _u8
      vspline <min_dx> <n> <x>*n <y>*n <nq> <q>*nq -> "vspline einval" | "vspline { <v> | - }*nq"   C10's SplineModel *)
 #include "glue.ml.inc"
 let toks = ref []
@@ -157,6 +159,19 @@ let () =
                if not (v_wfb p e) then wf := false;
                if not (v_exactb p (List.nth xs s) e) then ex := false) es) p.vp_systems;
            Printf.printf "vexact %d %d\n" (if !wf then 1 else 0) (if !ex then 1 else 0)
+         | "vterms" ->
+           let ty = nint () in let r = nnat () in let c = nnat () in
+           let er = nnat () in let ec = nnat () in
+           let n = nint () in
+           let conn = Array.of_list (times n (fun () -> nint () <> 0)) in
+           let sz = Array.of_list (times n (fun () -> nint () <> 0)) in
+           let get a k = let i = int_of_nat k in i < Array.length a && a.(i) in
+           let ts = (if ty = 0 then build_terms_t8 else build_terms_u8) r c er ec (get conn) (get sz) in
+           let oi = function None -> -1 | Some k -> int_of_nat k in
+           Printf.printf "vterms %d%s\n" (List.length ts)
+             (String.concat "" (List.map (fun t ->
+                  Printf.sprintf " %d %d %d %d %d" (if t.vt_neg then 1 else 0) (oi t.vt_m) (oi t.vt_s)
+                    (int_of_nat t.vt_v) (oi t.vt_x)) ts))
          | "vspline" ->
            let mindx = nq () in let n = nint () in
            let xs = times n nq in let ys = times n nq in
